@@ -147,6 +147,20 @@ func probeViews(what string, vs []view) string {
 	return ""
 }
 
+// usableViews: an object returned together with a nil error is "a usable object": at every
+// view its validity query reports no error and its encoding succeeds.
+func usableViews(what string, vs []view) string {
+	for _, v := range vs {
+		if err := v.getErr(); err != nil {
+			return fmt.Sprintf("%s, but %s of the returned object reports %v", what, v.name, err)
+		}
+		if enc, err := v.encode(); err != nil {
+			return fmt.Sprintf("%s, but Encode() of %s of the returned object fails (%q, %v)", what, v.name, enc, err)
+		}
+	}
+	return ""
+}
+
 // ---- (a) + (b): arbitrary strings, receiver left behind -----------------------------------
 
 var checkC12String = register("C12/string", func(c strCase) string {
@@ -211,22 +225,31 @@ var checkC12String = register("C12/string", func(c strCase) string {
 		for _, again := range []string{s, "CVSS:3.1/AV:N/AC:L/PR:N/UI:N/S:U/C:H/I:H/A:H", ""} {
 			var nilObj bool
 			var err2 error
+			var got []view
 			switch lv {
 			case spec.Base:
 				var o *m3.Base
 				o, err2 = rb.Decode(again)
 				nilObj = o == nil
+				got = views3(o, nil, nil, lv)
 			case spec.Temporal:
 				var o *m3.Temporal
 				o, err2 = rt.Decode(again)
 				nilObj = o == nil
+				got = views3(nil, o, nil, lv)
 			default:
 				var o *m3.Environmental
 				o, err2 = re.Decode(again)
 				nilObj = o == nil
+				got = views3(nil, nil, o, lv)
 			}
 			if nilObj == (err2 == nil) {
 				return fmt.Sprintf("%s: a further Decode(%s) on the same decoder returned object-nil=%v with error %v", what, quoteShort([]byte(again)), nilObj, err2)
+			}
+			if err2 == nil {
+				if m := usableViews(fmt.Sprintf("%s: a further Decode(%s) on the same decoder succeeded", what, quoteShort([]byte(again))), got); m != "" {
+					return m
+				}
 			}
 		}
 		return ""
@@ -283,22 +306,31 @@ var checkC12String = register("C12/string", func(c strCase) string {
 	for _, again := range []string{s, "AV:N/AC:L/Au:N/C:P/I:P/A:C", ""} {
 		var nilObj bool
 		var err2 error
+		var got []view
 		switch lv {
 		case spec.Base:
 			var o *m2.Base
 			o, err2 = rb.Decode(again)
 			nilObj = o == nil
+			got = views2(o, nil, nil, lv)
 		case spec.Temporal:
 			var o *m2.Temporal
 			o, err2 = rt.Decode(again)
 			nilObj = o == nil
+			got = views2(nil, o, nil, lv)
 		default:
 			var o *m2.Environmental
 			o, err2 = re.Decode(again)
 			nilObj = o == nil
+			got = views2(nil, nil, o, lv)
 		}
 		if nilObj == (err2 == nil) {
 			return fmt.Sprintf("%s: a further Decode(%s) on the same decoder returned object-nil=%v with error %v", what, quoteShort([]byte(again)), nilObj, err2)
+		}
+		if err2 == nil {
+			if m := usableViews(fmt.Sprintf("%s: a further Decode(%s) on the same decoder succeeded", what, quoteShort([]byte(again))), got); m != "" {
+				return m
+			}
 		}
 	}
 	return ""
@@ -535,7 +567,7 @@ func longInputs() []string {
 func TestC12(t *testing.T) {
 	c := begin(t, "C12")
 	defer c.end()
-	c.rec.F.Rule = "strings: the generator mix of C07/C08 for both versions (valid, mutated, single-defect, arbitrary unicode / bytes / alphabet / token soup) at all six decoders through constructor and nil receiver: no panic, exactly one of (object, error) non-nil, then every observer (Score, Severity, GetError, Encode, String, BaseMetrics, TemporalMetrics and the chains through returned sub-objects) on the returned object and on the receiver left behind, then three further Decode calls on that same decoder (no panic, object xor error — nothing else is asserted about a re-used decoder); plus the deterministic hostile shapes of C07 (floods around power-of-two counts, boundary-length tokens, look-alike characters, dense multi-byte text); thorough adds eight constructed 1-4 MiB inputs and native fuzzing. objects: nil receivers and fresh constructor results of all six types, the same after valid vectors were decoded through the accessor results of nil and of other fresh objects (a nil accessor result is a nil-receiver decoder), and the complete one-field-reset enumeration (every exported field of every level set to its unknown/invalid constant, with and without a complete round of queries on the still valid object beforehand) over generated accepted vectors: no panic, and where the version or a metric of the queried level (v2: of a present group) is unknown/invalid: GetError != nil, Encode returns an error, Score == 0. Non-trivial = failed decode leaving a partially filled receiver, or a reset / nil / fresh object; distinct by hash of the case."
+	c.rec.F.Rule = "strings: the generator mix of C07/C08 for both versions (valid, mutated, single-defect, arbitrary unicode / bytes / alphabet / token soup) at all six decoders through constructor and nil receiver: no panic, exactly one of (object, error) non-nil, then every observer (Score, Severity, GetError, Encode, String, BaseMetrics, TemporalMetrics and the chains through returned sub-objects) on the returned object and on the receiver left behind, then three further Decode calls on that same decoder (no panic, object xor error, and an object returned without error must be usable: no view reports an error or fails to encode — nothing else is asserted about a re-used decoder); plus the deterministic hostile shapes of C07 (floods around power-of-two counts, boundary-length tokens, look-alike characters, dense multi-byte text); thorough adds eight constructed 1-4 MiB inputs and native fuzzing. objects: nil receivers and fresh constructor results of all six types, the same after valid vectors were decoded through the accessor results of nil and of other fresh objects (a nil accessor result is a nil-receiver decoder), and the complete one-field-reset enumeration (every exported field of every level set to its unknown/invalid constant, with and without a complete round of queries on the still valid object beforehand) over generated accepted vectors: no panic, and where the version or a metric of the queried level (v2: of a present group) is unknown/invalid: GetError != nil, Encode returns an error, Score == 0. Non-trivial = failed decode leaving a partially filled receiver, or a reset / nil / fresh object; distinct by hash of the case."
 	c.rec.F.Assumptions = []string{"v2 IsEmpty() on a nil receiver is not among the queries the property lists and is not called on nil receivers", "zero value of every exported enumeration field is its unknown/invalid constant"}
 
 	// ---- nil and fresh objects ------------------------------------------------------------------
